@@ -307,15 +307,15 @@ var _AOpContextTable = []_OpContextType{
 	AFDIV_S:    {Opcode: _OpBase_OP_FP, ArgMarks: _ARG_RType, Funct7: 0b_000_1100},
 	AFSQRT_S:   {Opcode: _OpBase_OP_FP, ArgMarks: _ARG_RType, Funct7: 0b_000_1100, Rs2: newU32(0b_0_0000)},
 	AFSGNJ_S:   {Opcode: _OpBase_OP_FP, ArgMarks: _ARG_RType, Funct7: 0b_001_0000},
-	AFSGNJN_S:  {Opcode: _OpBase_OP_FP, ArgMarks: _ARG_RType, Funct7: 0b_001_0000},
-	AFSGNJX_S:  {Opcode: _OpBase_OP_FP, ArgMarks: _ARG_RType, Funct7: 0b_001_0000},
-	AFMIN_S:    {Opcode: _OpBase_OP_FP, ArgMarks: _ARG_RType, Funct7: 0b_001_0100, Rs2: newU32(0b_0_0000)},
-	AFMAX_S:    {Opcode: _OpBase_OP_FP, ArgMarks: _ARG_RType, Funct7: 0b_001_0100, Rs2: newU32(0b_0_0001)},
+	AFSGNJN_S:  {Opcode: _OpBase_OP_FP, ArgMarks: _ARG_RType, Funct3: 0b_001, Funct7: 0b_001_0000},
+	AFSGNJX_S:  {Opcode: _OpBase_OP_FP, ArgMarks: _ARG_RType, Funct3: 0b_010, Funct7: 0b_001_0000},
+	AFMIN_S:    {Opcode: _OpBase_OP_FP, ArgMarks: _ARG_RType, Funct3: 0b_000, Funct7: 0b_001_0100},
+	AFMAX_S:    {Opcode: _OpBase_OP_FP, ArgMarks: _ARG_RType, Funct3: 0b_001, Funct7: 0b_001_0100},
 	AFCVT_W_S:  {Opcode: _OpBase_OP_FP, ArgMarks: _ARG_RType, Funct7: 0b_110_0000, Rs2: newU32(0b_0_0000)},
 	AFCVT_WU_S: {Opcode: _OpBase_OP_FP, ArgMarks: _ARG_RType, Funct7: 0b_110_0000},
 	AFMV_X_W:   {Opcode: _OpBase_OP_FP, ArgMarks: _ARG_RType, Funct7: 0b_111_0000},
-	AFEQ_S:     {Opcode: _OpBase_OP_FP, ArgMarks: _ARG_RType, Funct7: 0b_101_0000},
-	AFLT_S:     {Opcode: _OpBase_OP_FP, ArgMarks: _ARG_RType, Funct7: 0b_101_0000},
+	AFEQ_S:     {Opcode: _OpBase_OP_FP, ArgMarks: _ARG_RType, Funct3: 0b_010, Funct7: 0b_101_0000},
+	AFLT_S:     {Opcode: _OpBase_OP_FP, ArgMarks: _ARG_RType, Funct3: 0b_001, Funct7: 0b_101_0000},
 	AFLE_S:     {Opcode: _OpBase_OP_FP, ArgMarks: _ARG_RType, Funct7: 0b_101_0000},
 	AFCLASS_S:  {Opcode: _OpBase_OP_FP, ArgMarks: _ARG_RType, Funct7: 0b_111_0000, Rs2: newU32(0b_0_0000)},
 	AFCVT_S_W:  {Opcode: _OpBase_OP_FP, ArgMarks: _ARG_RType, Funct7: 0b_110_1000, Rs2: newU32(0b_0_0000)},
@@ -343,14 +343,14 @@ var _AOpContextTable = []_OpContextType{
 	AFDIV_D:    {Opcode: _OpBase_OP_FP, ArgMarks: _ARG_RType, Funct7: 0b_000_1101},
 	AFSQRT_D:   {Opcode: _OpBase_OP_FP, ArgMarks: _ARG_RType, Funct7: 0b_010_1101, Rs2: newU32(0b_0_0000)},
 	AFSGNJ_D:   {Opcode: _OpBase_OP_FP, ArgMarks: _ARG_RType, Funct7: 0b_001_0001},
-	AFSGNJN_D:  {Opcode: _OpBase_OP_FP, ArgMarks: _ARG_RType, Funct7: 0b_001_0001},
-	AFSGNJX_D:  {Opcode: _OpBase_OP_FP, ArgMarks: _ARG_RType, Funct7: 0b_001_0001},
+	AFSGNJN_D:  {Opcode: _OpBase_OP_FP, ArgMarks: _ARG_RType, Funct3: 0b_001, Funct7: 0b_001_0001},
+	AFSGNJX_D:  {Opcode: _OpBase_OP_FP, ArgMarks: _ARG_RType, Funct3: 0b_010, Funct7: 0b_001_0001},
 	AFMIN_D:    {Opcode: _OpBase_OP_FP, ArgMarks: _ARG_RType, Funct7: 0b_001_0101},
-	AFMAX_D:    {Opcode: _OpBase_OP_FP, ArgMarks: _ARG_RType, Funct7: 0b_001_0101},
+	AFMAX_D:    {Opcode: _OpBase_OP_FP, ArgMarks: _ARG_RType, Funct3: 0b_001, Funct7: 0b_001_0101},
 	AFCVT_S_D:  {Opcode: _OpBase_OP_FP, ArgMarks: _ARG_RType, Funct7: 0b_010_0000, Rs2: newU32(0b_0_0001)},
 	AFCVT_D_S:  {Opcode: _OpBase_OP_FP, ArgMarks: _ARG_RType, Funct7: 0b_010_0001, Rs2: newU32(0b_0_0000)},
-	AFEQ_D:     {Opcode: _OpBase_OP_FP, ArgMarks: _ARG_RType, Funct7: 0b_101_0001},
-	AFLT_D:     {Opcode: _OpBase_OP_FP, ArgMarks: _ARG_RType, Funct7: 0b_101_0001},
+	AFEQ_D:     {Opcode: _OpBase_OP_FP, ArgMarks: _ARG_RType, Funct3: 0b_010, Funct7: 0b_101_0001},
+	AFLT_D:     {Opcode: _OpBase_OP_FP, ArgMarks: _ARG_RType, Funct3: 0b_001, Funct7: 0b_101_0001},
 	AFLE_D:     {Opcode: _OpBase_OP_FP, ArgMarks: _ARG_RType, Funct7: 0b_101_0001},
 	AFCLASS_D:  {Opcode: _OpBase_OP_FP, ArgMarks: _ARG_RType, Funct7: 0b_111_0001, Rs2: newU32(0b_0_0000)},
 	AFCVT_W_D:  {Opcode: _OpBase_OP_FP, ArgMarks: _ARG_RType, Funct7: 0b_110_0001, Rs2: newU32(0b_0_0000)},
